@@ -918,3 +918,38 @@ package rockredis
 //@   ensures ghost(curexists, db) == 0 ==> result0 == nil && ghost(reads, db) == old(ghost(reads, db))
 //@   ensures ghost(reads, db) != old(ghost(reads, db)) ==> ghost(reads, db) == old(ghost(reads, db)) + 1 && ghost(lastread, db) == lKid(ghost(curtk, db), lSeq(ghost(curhead, db), ghost(curlen, db), index))
 //@   modifies ghost(reads, db), ghost(lastread, db)
+
+//@ property C09 C12
+// ---- whole-collection enumeration: the iterator must cover exactly the collection's key range ----
+// The start key of a collection IS the key of its empty member/field (isCollKey(.., nil)), the stop key is the
+// prefix successor: every member key k satisfies start <= k < stop (lemmaHashRange / lemmaSetRange, C12), so
+// enumeration and bulk deletion must use the left-closed, right-open range [start, stop).
+//@ func zEncodeStartKey(table []byte, key []byte) []byte
+//@   trusted zset score-index range (float codec)
+//@   ensures fresh(result)
+//@ func zEncodeStopKey(table []byte, key []byte) []byte
+//@   trusted zset score-index range (float codec)
+//@   ensures fresh(result)
+//@ func (db *RockDB) getCollVerKeyForRange(ts int64, dt byte, key []byte, useLock bool) (collVerKeyInfo, error)
+//@   requires db != nil
+//@   ensures result1 == nil ==> result0.OldHeader != nil && smallTK(result0.Table, result0.VerKey)
+//@   ensures result1 == nil && dt == HashType ==> isCollKey(result0.RangeStart, HashType, result0.Table, result0.VerKey, nil) && isCollStop(result0.RangeEnd, HashType, result0.Table, result0.VerKey)
+//@   ensures result1 == nil && dt == SetType ==> isCollKey(result0.RangeStart, SetType, result0.Table, result0.VerKey, nil) && isCollStop(result0.RangeEnd, SetType, result0.Table, result0.VerKey)
+//@ func (r *RockDB) NewDBRangeIterator(min []byte, max []byte, rtype uint8, reverse bool) (*engine.RangeLimitedIterator, error)
+//@   trusted opens an engine iterator (engine contract, C20)
+//@   ensures result1 == nil ==> result0 != nil && rliOK(result0)
+//@ noeffect (*github.com/youzan/ZanRedisDB/engine.RangeLimitedIterator).RefValue (*github.com/youzan/ZanRedisDB/engine.RangeLimitedIterator).NoTimestamp (github.com/youzan/ZanRedisDB/engine.Iterator).RefValue (github.com/youzan/ZanRedisDB/engine.Iterator).NoTimestamp
+//@ func (db *RockDB) hDeleteAll(ts int64, hkey []byte, hlen int64, wb engine.WriteBatch, tableIndexes *TableIndexContainer) error
+//@   requires db != nil && db.cfg != nil && wb != nil
+//@   callassert NewDBRangeIterator isCollKey(arg1, HashType, keyInfo.Table, keyInfo.VerKey, nil) && isCollStop(arg2, HashType, keyInfo.Table, keyInfo.VerKey) && arg3 == common.RangeROpen && !arg4
+//@   callassert DeleteRange isCollKey(arg1, HashType, keyInfo.Table, keyInfo.VerKey, nil) && isCollStop(arg2, HashType, keyInfo.Table, keyInfo.VerKey)
+//@   modifies *
+//@   loop 1
+//@   invariant it != nil && rliOK(it)
+//@ func (db *RockDB) sMembersN(tn int64, key []byte, num int) ([][]byte, error)
+//@   requires db != nil
+//@   callassert NewDBRangeIterator isCollKey(arg1, SetType, keyInfo.Table, keyInfo.VerKey, nil) && isCollStop(arg2, SetType, keyInfo.Table, keyInfo.VerKey) && arg3 == common.RangeROpen && !arg4
+//@   ensures result1 == nil ==> len(result0) <= num
+//@   modifies *
+//@   loop 1
+//@   invariant it != nil && rliOK(it) && len(v) < num && num >= 1
